@@ -123,6 +123,13 @@ def programs(tier, rnd):
     toks = tokens(base)
     for (s, e) in rnd.sample(toks, min(len(toks), 12 if tier == "quick" else 60)):
         out.append(("syntax-fault", base[:s] + "@" + base[e:]))
+    # characters the lexer rejects, of every width (1 to 4 bytes), in place of a token, glued to one, and at the very end
+    STRAY = ["#", "α", "日", "😀", "é", "$", "\u00a0"]
+    for j, (s, e) in enumerate(rnd.sample(toks, min(len(toks), 14 if tier == "quick" else 70))):
+        ch = STRAY[j % len(STRAY)]
+        out.append(("lexical-fault", [base[:s] + ch + base[e:], base[:s] + ch + base[s:], base[:e] + ch + ch + base[e:]][j % 3]))
+    for ch in STRAY:
+        out.append(("lexical-fault", base + ch))
     out.append(("include", 'pragma circom 2.0.0;\n/* é */ include "nosuch.circom";\n' + base.split("\n", 1)[1]))
     out.append(("unclosed", base + "\n// é😀\n/* never closed é\n template X() {}\n"))
     out.append(("unclosed2", "pragma circom 2.0.0;\n// " + "é" * 70 + "\ntemplate T() {\n}\n/* x *"))
